@@ -887,6 +887,7 @@ def rule_d10b(toks, log):
             raise Unsupported('D10b: estimate shape `%s`' % _txt(init))
         inner = init[1:-3]
         ids = []
+        mlog = []
         k = 0
         while k < len(inner):
             x = inner[k]
@@ -894,6 +895,19 @@ def rule_d10b(toks, log):
                 if not (k + 1 < len(inner) and inner[k + 1][1] in ('f32', 'f64')):
                     raise Unsupported('D10b: cast in float estimate: ' + _txt(inner))
                 k += 2
+                continue
+            # D10b-m (additive): `RECV . method ( )` (no-argument method call on an identifier, e.g. `limit.log2_bounds()`)
+            # optionally followed by a tuple index `. 0`: the receiver is handed to the opaque estimate BY REFERENCE
+            # (`&RECV`, it may be a non-Copy big integer that the function uses afterwards), the method name / index are
+            # part of the float expression that is replaced as a whole
+            if x[0] == 'id' and k + 4 < len(inner) and _is(inner[k + 1], '.') and inner[k + 2][0] == 'id' \
+                    and _is(inner[k + 3], '(') and _is(inner[k + 4], ')'):
+                if '& ' + x[1] not in ids:
+                    ids.append('& ' + x[1])
+                mlog.append('%s.%s()' % (x[1], inner[k + 2][1]))
+                k += 5
+                if k + 1 < len(inner) and _is(inner[k], '.') and inner[k + 1][0] == 'lit' and inner[k + 1][1].isdigit():
+                    k += 2
                 continue
             if x[0] == 'id':
                 if x[1] not in ids:
@@ -903,6 +917,8 @@ def rule_d10b(toks, log):
             else:
                 raise Unsupported('D10b: float estimate shape: ' + _txt(inner))
             k += 1
+        if mlog:
+            log.append('D10b-m method calls inside the float estimate (receivers passed by reference): ' + ', '.join(mlog))
         g = '__f32_est%d' % n
         n += 1
         log.append('D10b float estimate `%s` -> opaque %s(%s)' % (_txt(init), g, ', '.join(ids)))
@@ -2040,6 +2056,161 @@ def rule_d11d(toks, log):
 
 
 # ---------------------------------------------------------------------------------------
+# D11h: `#[ref_lhs(x, ..)]` -- a reference-typed identifier as LEFT operand of `* / % << >>`, right operand ONE postfix expression
+
+_D11H_OPS = {'*': 'Mul :: mul', '/': 'Div :: div', '%': 'Rem :: rem', '<<': 'Shl :: shl', '>>': 'Shr :: shr'}
+
+
+def _d11h_postfix_end(out, j):
+    """index just behind the postfix expression starting at out[j] (real tokens only): a primary -- identifier, literal or
+    parenthesised group -- followed by any number of `. ident|int`, `:: ident`, `:: < generic args >`, `( args )`, `[ index ]`;
+    None if out[j] does not start one"""
+    n = len(out)
+    if j >= n or out[j][2]:
+        return None
+    if out[j][0] in ('id', 'lit'):
+        j += 1
+    elif out[j][0] == 'p' and out[j][1] == '(':
+        j = _match_close(out, j) + 1
+    else:
+        return None
+    while j < n and not out[j][2] and out[j][0] == 'p':
+        t = out[j][1]
+        if t == '.' and j + 1 < n and out[j + 1][0] in ('id', 'lit') and not out[j + 1][2]:
+            j += 2
+        elif t == '::' and j + 1 < n and out[j + 1][0] == 'id' and not out[j + 1][2]:
+            j += 2
+        elif t == '::' and j + 1 < n and _is(out[j + 1], '<') and not out[j + 1][2]:
+            d, j = 1, j + 2
+            while j < n and d:
+                if out[j][2] or (out[j][0] == 'p' and out[j][1] in ('>>', '<<', ';', '{', '}')):
+                    return None
+                if _is(out[j], '<'):
+                    d += 1
+                elif _is(out[j], '>'):
+                    d -= 1
+                j += 1
+            if d:
+                return None
+        elif t in ('(', '['):
+            j = _match_close(out, j) + 1
+        else:
+            break
+    return j
+
+
+def rule_d11h(toks, log):
+    """Directive `#[ref_lhs(a, ..)]` (annotation tokens; a: identifier of a parameter / local whose type is a reference to a
+    non-primitive type, e.g. `&IBig`): every real-token `X OP R` with X a listed identifier, OP one of `* / % << >>`, preceded
+    by `=`, `=>`, `(`, `{`, `}`, `;`, `,` or an annotation, R ONE postfix expression (see _d11h_postfix_end: it binds tighter
+    than every binary operator) that runs exactly up to a `,`, `;`, `)`, `}` or an annotation -- so `X OP R` is a complete
+    expression -- ==> `core::ops::Tr::m(X, R)`.  Same reason and same justification as D11 / D14 (this Verus build fails
+    with `codegen_select_candidate failed` on an overloaded operator whose left operand is a reference; the rewrite is
+    Rust's own definition of the operator).  float/src/utils.rs `value << exp`, `value * IBig::from(5).pow(exp)`,
+    `value / base_as_ibig::<B>().pow(exp)`, `value << (exp * b.trailing_zeros() as usize)`.  Any other shape is left
+    untouched; a listed identifier that occurs in no such expression ==> unsupported."""
+    i = 0
+    while i + 3 < len(toks):
+        if toks[i][2] and _is(toks[i], '#') and _is(toks[i + 1], '[') and _is(toks[i + 2], 'ref_lhs') and _is(toks[i + 3], '('):
+            break
+        i += 1
+    else:
+        return toks
+    ce = _match_close(toks, i + 3)
+    if not (ce + 1 < len(toks) and _is(toks[ce + 1], ']')):
+        raise Unsupported('D11h: malformed ref_lhs directive')
+    names = []
+    for part in _split_top(toks[i + 4:ce]):
+        if len(part) != 1 or part[0][0] != 'id':
+            raise Unsupported('D11h: ref_lhs takes identifiers')
+        names.append(part[0][1])
+    out = toks[:i] + toks[ce + 2:]
+    hit = set()
+    k = 1
+    while k + 2 < len(out):
+        a, o = out[k], out[k + 1]
+        if a[0] == 'id' and a[1] in names and not a[2] and o[0] == 'p' and o[1] in _D11H_OPS and not o[2] \
+                and (out[k - 1][2] or (out[k - 1][0] == 'p' and out[k - 1][1] in ('=', '=>', '(', '{', '}', ';', ','))):
+            j = _d11h_postfix_end(out, k + 2)
+            if j is not None and j < len(out) and (out[j][2] or (out[j][0] == 'p' and out[j][1] in (',', ';', ')', '}'))):
+                rhs = out[k + 2:j]
+                log.append('D11h `%s %s %s` -> core::ops::%s(..) (reference-typed left operand, postfix right operand)' % (
+                    a[1], o[1], _txt(rhs)[:60], _D11H_OPS[o[1]].replace(' ', '')))
+                new = toks_of('core :: ops :: %s ( %s ,' % (_D11H_OPS[o[1]], a[1]), False) + rhs + toks_of(')', False)
+                out = out[:k] + new + out[j:]
+                hit.add(a[1])
+                # continue INSIDE the rewritten call (the right operand may contain further occurrences)
+                k += 1
+                continue
+        k += 1
+    missing = [n for n in names if n not in hit]
+    if missing:
+        raise Unsupported('D11h: no `X OP R` expression with left operand %s' % ', '.join(missing))
+    return out
+
+
+# ---------------------------------------------------------------------------------------
+# D11i: `#[ref_rhs(x, ..)]` -- ONE postfix expression as left operand of `* / %`, right operand a reference `& x.p` / `x`
+
+def rule_d11i(toks, log):
+    """Directive `#[ref_rhs(a, ..)]` (annotation tokens; a: identifier of a parameter / local of reference type, e.g.
+    `rhs: &ConstDivisor`): every real-token `L OP R` with L ONE postfix expression (see _d11h_postfix_end: it binds tighter
+    than every binary operator) preceded by `=`, `=>`, `(`, `{`, `}`, `;`, `,` or an annotation, OP one of `* / %`, and R
+    either `& P` with P a plain place path `a ( . id | . int )*` whose head `a` is listed, or a listed identifier itself,
+    followed by `,`, `;`, `)`, `}` or an annotation -- so `L OP R` is a complete expression -- ==> `core::ops::Tr::m(L, R)`.
+    Same reason and same justification as D11 / D11h (this Verus build fails with `codegen_select_candidate failed` on an
+    overloaded operator with a reference operand; the rewrite is Rust's own definition of the operator).
+    integer/src/div_const.rs `self.into_repr() / &rhs.0`, `(repr % &rhs.0).with_sign(sign)`, `mem::take(self) / rhs`.
+    Any other shape is left untouched; a listed identifier that occurs in no such expression ==> unsupported."""
+    i = 0
+    while i + 3 < len(toks):
+        if toks[i][2] and _is(toks[i], '#') and _is(toks[i + 1], '[') and _is(toks[i + 2], 'ref_rhs') and _is(toks[i + 3], '('):
+            break
+        i += 1
+    else:
+        return toks
+    ce = _match_close(toks, i + 3)
+    if not (ce + 1 < len(toks) and _is(toks[ce + 1], ']')):
+        raise Unsupported('D11i: malformed ref_rhs directive')
+    names = []
+    for part in _split_top(toks[i + 4:ce]):
+        if len(part) != 1 or part[0][0] != 'id':
+            raise Unsupported('D11i: ref_rhs takes identifiers')
+        names.append(part[0][1])
+    out = toks[:i] + toks[ce + 2:]
+    hit = set()
+    ops = {'*': 'Mul :: mul', '/': 'Div :: div', '%': 'Rem :: rem'}
+    k = 1
+    while k + 2 < len(out):
+        if (out[k - 1][2] or (out[k - 1][0] == 'p' and out[k - 1][1] in ('=', '=>', '(', '{', '}', ';', ','))) \
+                and not out[k][2] and not (out[k][0] == 'id' and out[k][1] in (
+                    'let', 'mut', 'if', 'while', 'match', 'return', 'in', 'else', 'move', 'unsafe', 'for', 'loop', 'break')):
+            j = _d11h_postfix_end(out, k)
+            if j is not None and j + 1 < len(out) and out[j][0] == 'p' and out[j][1] in ops and not out[j][2]:
+                r0 = j + 1
+                head, e = None, None
+                if _is(out[r0], '&') and not out[r0][2] and r0 + 1 < len(out):
+                    head, e = out[r0 + 1], _place_path_end(out, r0 + 1)
+                elif out[r0][0] == 'id' and not out[r0][2]:
+                    head, e = out[r0], r0 + 1
+                if e is not None and head[0] == 'id' and head[1] in names and e < len(out) \
+                        and (out[e][2] or (out[e][0] == 'p' and out[e][1] in (',', ';', ')', '}'))):
+                    lhs, rhs, op = out[k:j], out[r0:e], out[j][1]
+                    log.append('D11i `%s %s %s` -> core::ops::%s(..) (postfix left operand, reference right operand)' % (
+                        _txt(lhs)[:60], op, _txt(rhs)[:40], ops[op].replace(' ', '')))
+                    new = toks_of('core :: ops :: %s (' % ops[op], False) + lhs + [T('p', ',')] + rhs + toks_of(')', False)
+                    out = out[:k] + new + out[e:]
+                    hit.add(head[1])
+                    k += len(new)
+                    continue
+        k += 1
+    missing = [n for n in names if n not in hit]
+    if missing:
+        raise Unsupported('D11i: no `L OP R` expression with right operand %s' % ', '.join(missing))
+    return out
+
+
+# ---------------------------------------------------------------------------------------
 # D11f: `( & P ) OP X` -- parenthesised reference on the left, one identifier / literal on the right
 
 def rule_d11f(toks, log):
@@ -2602,6 +2773,8 @@ def lower(toks, marks, opts=None):
     ts = rule_d11b(ts, log)
     ts = rule_d11c(ts, log)
     ts = rule_d11d(ts, log)
+    ts = rule_d11h(ts, log)
+    ts = rule_d11i(ts, log)
     ts = rule_d11e(ts, log)
     ts = rule_d11f(ts, log)
     ts = rule_d12(ts, log)
